@@ -920,12 +920,15 @@ func Eval(p *Program, in *Input) (out *Outcome) {
 			acc := r.eval(st.Acc).s
 			if st.All != nil {
 				asset := r.eval(st.All).s
-				r.getBal(acc, asset)
-				if acc != "world" {
+				// saving everything leaves nothing to spend; a negative balance stays negative
+				if acc != "world" && r.getBal(acc, asset).Sign() > 0 {
 					r.bal[bkey(acc, asset)] = new(big.Int)
 				}
 			} else {
 				m := r.eval(st.Mon)
+				if m.n.Sign() < 0 {
+					rejectLoose() // a negative save would raise the spendable balance
+				}
 				r.addBal(acc, m.asset, new(big.Int).Neg(m.n))
 			}
 		case StFail:
